@@ -1941,7 +1941,8 @@ class PGPKey(Armorable, ParentRef, PGPObject):
             # RFC 4880 says that primary keys *must* be capable of certification
             return {KeyFlags.Certify} | (user.selfsig.key_flags if user.selfsig else set())
 
-        return next(self.self_signatures).key_flags
+        # the most recent binding signature decides (self_signatures yields them oldest first)
+        return list(self.self_signatures)[-1].key_flags
 
     def _sign(self, subject, sig, **prefs):
         """
